@@ -176,7 +176,7 @@ func prepare(race bool) *build {
 		fatal2("mktemp: %v", err)
 	}
 	b := &build{scratch: scratch, race: race}
-	res, err := instrument.Run(instrument.Options{Repo: repoDir, Pkgs: []string{"cache", "server", "location", "upstream", "compress", "store"}, GoPkgs: []string{"server"}, Out: filepath.Join(scratch, "ov")})
+	res, err := instrument.Run(instrument.Options{Repo: repoDir, Pkgs: []string{"cache", "server", "location", "upstream", "compress", "store"}, GoPkgs: []string{"server", "cache", "compress", "location", "store"}, Out: filepath.Join(scratch, "ov")})
 	if err != nil {
 		os.RemoveAll(scratch)
 		fatal2("instrumentation failed: %v", err)
